@@ -13,8 +13,8 @@ from harness import common
 LEVEL = {"partial": ["NumPy's dtype inference for a list of Python / NumPy scalars is a stand-in decision table over the set of element types present (Model/Construct.lean), validated by the same correspondence stream",
                      "element values are abstracted to (type kind, small payload); conversions of payloads by NumPy (int -> float beyond 2**53, str of numbers) are not modelled"]}
 ASSUMPTIONS = ["np.array(list) infers: bool<int<float numeric promotion, any str -> unicode, date/datetime objects -> object, timedelta objects -> m8[us], bytes -> S"]
-RULE = ("sequences of length 0..6 over a 19-value pool (None, NaN, Python bool/int/float/str/date/datetime/timedelta/bytes/tuple, NumPy "
-        "bool_/int64/float64/datetime64/str_ scalars), homogeneous or mixed, with and without an explicit dtype (bool, int, float, str, "
+RULE = ("sequences of length 0..6 over a pool of named values (None, NaN, Python bool/int/float/str/date/datetime/timedelta/bytes/tuple, NumPy "
+        "bool_/int64/float64/datetime64 (day and nanosecond)/str_ scalars), homogeneous or mixed, with and without an explicit dtype (bool, int, float, str, "
         "object, datetime64[D], datetime64[us], timedelta64[s]); laws checked on the real objects: NA mapping, is_na exactness, tolist round "
         "trip, rebuild-equal, equal reflexive/symmetric/transitive, na_dtype holds na_value, drop_na / replace_na; non-trivial = length>=2 "
         "with a missing and a non-missing element; thorough: all sequences of length<=3 over the pool x all dtype options")
@@ -41,18 +41,23 @@ POOL = {
     "complex": 1 + 2j,
     # an object that compares equal to everything, None included (`unittest.mock.ANY`, a user's wildcard class): a value
     "any": __import__("unittest.mock").mock.ANY,
+    # NumPy datetime scalars finer than Python's datetime can hold (what pandas and np.datetime64(..., "ns") hand out): two
+    # instants inside the same microsecond; tolist has to give back something from which exactly these are rebuilt
+    "np.dtns": np.datetime64("2020-01-01T00:00:00.123456789"), "np.dtns2": np.datetime64("2020-01-01T00:00:00.123456001"),
 }
-NAT_NAMES = ("np.nat", "np.tdnat", "complex")
+NAT_NAMES = ("np.nat", "np.tdnat", "complex", "np.dtns", "np.dtns2")
 KIND = {"None": "none", "nan": "nan", "True": "bool", "False": "bool", "1": "int", "big": "int", "1.5": "float", "a": "str", "empty": "str",
         "date": "date", "datetime": "datetime", "timedelta": "timedelta", "bytes": "bytes", "tuple": "obj", "np.bool": "npbool",
         "np.int": "npint", "np.float": "npfloat", "np.nan": "npnan", "np.dt": "npdt", "np.str": "npstr",
-        "inf": "float", "-inf": "float", "-0.0": "float", "huge": "float", "stamp": "datesub", "day": "datesub", "np.nat": "npnat", "np.tdnat": "nptdnat", "complex": "complex", "any": "obj"}
+        "inf": "float", "-inf": "float", "-0.0": "float", "huge": "float", "stamp": "datesub", "day": "datesub", "np.nat": "npnat", "np.tdnat": "nptdnat", "complex": "complex", "any": "obj",
+        "np.dtns": "npdtns", "np.dtns2": "npdtns"}
 DTYPES = [None, "bool", "int", "float", "str", "object", "datetime64[D]", "datetime64[us]", "timedelta64[s]", "StringDType()"]
 FAMILIES = [["True", "False"], ["1", "big"], ["1.5", "1"], ["a", "empty"], ["date"], ["datetime"], ["timedelta"], ["bytes"], ["tuple", "1"],
             ["np.bool"], ["np.int"], ["np.float", "np.nan"], ["np.dt"], ["np.str"], ["True", "1"], ["1", "a"], ["date", "datetime"],
             ["True", "1.5"], ["a", "1.5"], ["1.5", "inf", "-inf"], ["inf", "-0.0", "huge", "1"],
             ["stamp"], ["day"], ["stamp", "datetime"], ["day", "date"],
-            ["np.nat"], ["np.nat"], ["np.nat", "np.dt"], ["np.nat", "date"], ["np.tdnat"], ["date", "1"], ["date", "a"], ["datetime", "1.5"], ["date", "timedelta"], ["any", "1"], ["any", "a"], ["any"], ["complex"], ["complex", "1.5"], ["complex", "1"]]
+            ["np.nat"], ["np.nat"], ["np.nat", "np.dt"], ["np.nat", "date"], ["np.tdnat"], ["date", "1"], ["date", "a"], ["datetime", "1.5"], ["date", "timedelta"], ["any", "1"], ["any", "a"], ["any"], ["complex"], ["complex", "1.5"], ["complex", "1"],
+            ["np.dtns", "np.dtns2"], ["np.dtns"], ["np.dtns2", "np.dt"]]
 
 
 def gen_case(rng, tier):
@@ -141,6 +146,15 @@ def pyeq(a, b):
     if a is None or b is None:
         return a is None and b is None
     try:
+        if isinstance(a, np.datetime64) and np.datetime_data(a.dtype)[0] in ("ns", "ps", "fs", "as"):
+            # finer than Python's datetime: the element comes back as the integer tick count NumPy gives, or as something that
+            # denotes exactly the same instant
+            if isinstance(b, int) and not isinstance(b, bool):
+                return int(a.astype("int64")) == b
+            return bool(np.datetime64(b) == a)
+        if isinstance(a, np.datetime64) and isinstance(b, int) and not isinstance(b, bool):
+            # a coarser scalar stored next to nanosecond ones: the same instant counted in nanoseconds
+            return int(a.astype("datetime64[ns]").astype("int64")) == b
         if isinstance(a, (np.datetime64,)):
             a = a.astype("datetime64[us]").astype(object)
         if isinstance(b, (np.datetime64,)):
@@ -158,9 +172,9 @@ def pyeq(a, b):
 
 
 COMPAT = {"bool": {"bool", "npbool"}, "int": {"int", "npint", "bool", "npbool"}, "float": {"float", "npfloat", "int", "npint"},
-          "str": {"str", "npstr"}, "ustr": {"str", "npstr"}, "date": {"date", "npdt"}, "datetime": {"datetime", "date", "npdt"},
+          "str": {"str", "npstr"}, "ustr": {"str", "npstr"}, "date": {"date", "npdt"}, "datetime": {"datetime", "date", "npdt", "npdtns"},
           "timedelta": {"timedelta"}, "bytes": {"bytes"},
-          "object": {"bool", "int", "float", "str", "date", "datetime", "timedelta", "bytes", "obj", "npbool", "npint", "npfloat", "npdt", "npstr", "complex"}}
+          "object": {"bool", "int", "float", "str", "date", "datetime", "timedelta", "bytes", "obj", "npbool", "npint", "npfloat", "npdt", "npstr", "complex", "npdtns"}}
 
 
 def compatible(name, dclass):
